@@ -381,6 +381,12 @@ class Exec:
             cells = s.explode(ty, v.v, n)
             return [None if (v.um >> (8 * k)) & 255 else c for k, c in enumerate(cells)]
         if isinstance(v, int): return [(v >> (8 * k)) & 255 for k in range(n)]
+        if isinstance(v, tuple) and len(v) == 2 and v[0] == 'f':
+            # floating-point *constant* stored as data (e.g. unordered_map's max_load_factor); no FP arithmetic is modelled
+            import struct
+            if n not in (4, 8): raise Inconclusive('floating point constant of %d bytes' % n)
+            x = struct.unpack('<d', struct.pack('<Q', int(v[1], 16)))[0] if v[1].lower().startswith('0x') else float(v[1])
+            return list(struct.pack('<f' if n == 4 else '<d', x))
         w = n * 8; vn = v.size()
         e = v if vn == w else z3.ZeroExt(w - vn, v)
         return [simp(z3.Extract(8 * k + 7, 8 * k, e)) for k in range(n)]
@@ -1236,6 +1242,23 @@ class Exec:
             if isinstance(p, Ptr) and p.obj in st.mem: return s.typeid(st.mem[p.obj].name.lstrip('@'))
             return s.typeid('<catch-all>')
         if name.startswith('llvm.expect'): return a[0]
+        if name.startswith('llvm.load.relative'):
+            # relative lookup table (rel-lookup-table-converter): entry = trunc(ptrtoint(target) - ptrtoint(table)); the
+            # (object, offset) pointer encoding cannot survive the truncation, so read the target from the initializer
+            p = a[0]; off = s.concretize(st, a[1], 'load.relative offset')
+            if not isinstance(p, Ptr) or isinstance(p.obj, tuple) or p.obj not in st.mem or is_sym(p.off): raise Inconclusive('llvm.load.relative on a non-global table')
+            o = st.mem[p.obj]; gname = o.name.lstrip('@'); pos = p.off + sgn(off, 64)
+            if o.kind != 'const' or pos < 0 or pos % 4 or pos + 4 > len(o.cells): s.ub(st, 'llvm.load.relative outside its table')
+            for m in s.mods:
+                g = m.globals.get(gname)
+                if g is None or g[1] is None or g[1][0] != 'agg': continue
+                ev = g[1][1][pos // 4][1]
+                if ev[0] == 'ccast' and ev[3][0] == 'cbin' and ev[3][1] == 'sub' and ev[3][3][0] == 'p2i':
+                    fr = Frame.__new__(Frame); fr.mod = m; fr.env = {}; fr.fn = None
+                    st.frames.append(fr)
+                    try: return s.val(st, ev[3][3][1], None)
+                    finally: st.frames.pop()
+            raise Inconclusive('llvm.load.relative: unrecognised table ' + gname)
         if name.startswith('llvm.objectsize'): return mask(-1, res(args[0][0]).n if False else 64)
         if name.startswith('llvm.is.constant'): return 0
         if name.startswith(('llvm.memcpy', 'llvm.memmove')):
